@@ -616,7 +616,18 @@ struct Exec {
           auto pred = [&](Mask x) { return (long)(h2(bseed, x) % 10) < rate; };
           ST b; b.insert_graph(adversarial(g, seed + 3));
           long calls = 0;
-          b.expansion_with_blockers(d, [&](SH sh) { ++calls; Mask x = mask_of(b, sh); if (reentrant) { (void)b.filtration(sh); for (auto f : b.boundary_simplex_range(sh)) (void)b.filtration(f); (void)b.find(word(x)); } return pred(x); });
+          b.expansion_with_blockers(d, [&](SH sh) { ++calls; Mask x = mask_of(b, sh); if (reentrant) {
+              // the candidate has been inserted before the oracle is called (documented), so every read interface has to show it
+              (void)b.filtration(sh); for (auto f : b.boundary_simplex_range(sh)) (void)b.filtration(f);
+              ST_REQ(b.find(word(x)) == sh, "route", "blocker oracle: find() of the candidate " + m.str(x) + " does not return the candidate");
+              for (auto f : b.boundary_simplex_range(sh)) {
+                bool in_cof = false, in_star = false;
+                for (auto c : b.cofaces_simplex_range(f, 1)) if (c == sh) in_cof = true;
+                for (auto c : b.star_simplex_range(f)) if (c == sh) in_star = true;
+                ST_REQ(in_cof && in_star, "star", "blocker oracle: the candidate " + m.str(x) + " is in the tree but is not listed among the cofaces / in the star of its facet " + m.str(mask_of(b, f)));
+              }
+              r.count("probe.blocker_reads_cofaces");
+            } return pred(x); });
           r.count("probe.blocker_calls", calls);
           Complex cb = clique(g, std::max(d, 1), pred); compare_with(b, cb, "insert_graph + expansion_with_blockers(" + std::to_string(d) + ", predicate)");
         }
